@@ -541,6 +541,7 @@ func (tm *TaskMaster) StartTask(t *Task) (*ExecutingTask, error) {
 	}
 
 	var ins []edge.StatsEdge
+	started := false
 	switch et.Task.Type {
 	case StreamTask:
 		e, err := tm.newFork(et.Task.ID, et.Task.DBRPs, et.Task.Measurements())
@@ -548,6 +549,13 @@ func (tm *TaskMaster) StartTask(t *Task) (*ExecutingTask, error) {
 			return nil, err
 		}
 		ins = []edge.StatsEdge{e}
+		// Do not leave the fork registered, with an edge nobody reads,
+		// if the task fails to start.
+		defer func() {
+			if !started {
+				tm.delFork(et.Task.ID)
+			}
+		}()
 	case BatchTask:
 		count, err := et.BatchCount()
 		if err != nil {
@@ -576,6 +584,7 @@ func (tm *TaskMaster) StartTask(t *Task) (*ExecutingTask, error) {
 	}
 
 	tm.tasks[et.Task.ID] = et
+	started = true
 	tm.diag.StartedTask(t.ID)
 	tm.diag.TaskMasterDot(string(t.Dot()))
 
